@@ -3,6 +3,7 @@ import CedarVerif.Lemmas.SchemaDecl
 import CedarVerif.Lemmas.SchemaDecl2
 import CedarVerif.Lemmas.SchemaCollect
 import CedarVerif.Cedar.SchemaFmtCheck
+import CedarVerif.Lemmas.SchemaAnnot
 /-
 C09 — the JSON and the Cedar schema syntaxes denote the same schema.
 
@@ -706,5 +707,93 @@ theorem finding_shadow_not_refused :
 /-- an entity type whose shape is a common-type reference (not expressible as `EntityTypeJ`) is refused when nothing collides -/
 example : toCedarChecked ⟨none, [(⟨[], "NS"⟩, ⟨[("S", .record .nil)], [], []⟩)]⟩ [⟨["NS"], "E"⟩] = .error (.unconvertibleShape [⟨["NS"], "E"⟩]) := by
   decide +kernel
+
+/-! ## annotations (`Cedar/SchemaAnnot.lean`, lemmas `Lemmas/SchemaAnnot.lean`) -/
+
+/-- an ANNOTATION MAP (`est::Annotations`: identifier keys in `BTreeMap` order, values optional) printed by `Annotations::fmt_indented`
+(`@key("value")`, `@key` for an absent value) and read by the grammar's `Annotation*` + `deduplicate_annotations` comes back as
+`normAnns` of itself: same keys, same values, an ABSENT value (`null` in JSON) becomes `""`.  `R` is what follows (a declaration, the
+`namespace` keyword, `}` or the end of the input — anything not starting with a punctuation token like `@` or `(`). -/
+theorem annotations_roundtrip (a : AnnsJ) (hw : WFAnns a) (hk : KeysSorted a) (R : List Tok) (hR : startsId R = true) :
+    parseAnnotations (printAnns a ++ R) = some (normAnns a, R) :=
+  parseAnnotations_print a hw hk R hR
+
+example : parseAnnotations (printAnns [("doc", some "a \"doc\""), ("if", none), ("z", some "")] ++ [.id "entity", .id "E", .other ";"]) =
+    some ([("doc", some "a \"doc\""), ("if", some ""), ("z", some "")], [.id "entity", .id "E", .other ";"]) :=
+  annotations_roundtrip _ (by intro x hx; simp at hx; rcases hx with rfl | rfl | rfl <;> decide +kernel)
+    (by simp [KeysSorted]; decide +kernel) _ (by decide +kernel)
+
+/-- what the parser does beyond the printed forms: annotations in any order are SORTED, a repeated key is refused
+(`DuplicateAnnotations`), a key must be identifier-shaped, the value a single string literal in parentheses -/
+theorem annotations_parser_accepts_more :
+    parseAnnotations [.other "@", .id "z", .other "@", .id "a", .other "(", .str "v", .other ")", .id "type"] =
+      some ([("a", some "v"), ("z", some "")], [.id "type"]) ∧
+    parseAnnotations [.other "@", .id "a", .other "@", .id "a", .other "(", .str "v", .other ")", .id "type"] = none ∧
+    parseAnnotations [.other "@", .str "a", .id "type"] = none ∧
+    parseAnnotations [.other "@", .id "a b", .id "type"] = none ∧
+    parseAnnotations [.id "type"] = some ([], [.id "type"]) := by
+  refine ⟨by decide +kernel, by decide +kernel, by decide +kernel, by decide +kernel, by decide +kernel⟩
+
+/-- the absent-value normalisation is a genuine change of the JSON fragment: `{"annotations": {"a": null}}` comes back as
+`{"annotations": {"a": ""}}` (both denote the annotation value `""`: `Annotation::with_optional_value`) -/
+theorem annotation_null_becomes_empty :
+    parseAnnotations (printAnns [("a", none)] ++ [.id "entity"]) = some ([("a", some "")], [.id "entity"]) := by decide +kernel
+
+/-- an ANNOTATED NAMESPACE BODY (`Annotated<Decl>*`): common types, entity types of both kinds and actions, each with its annotation
+map, printed by `NamespaceDefinition::fmt_indented` and read by the grammar, come back as the Cedar declarations the un-annotated
+theorems talk about (`fragment_roundtrip`), each with `normAnns` of its annotations; `rest` is what follows the body (`}` or the
+end of the input). -/
+theorem annotated_namespace_roundtrip (d : NamespaceA) (hw : WFNs d.strip) (ha : AnnsOKNs d) (fuel : Nat)
+    (rest : List Tok) (hr : isDeclStart rest = false) (hs : startsId rest = true) (hf : nsCount d.strip < fuel) :
+    parseDeclListA fuel (printNsA d ++ rest) =
+      some ((triplesOfNsA d).map (fun x => (normAnns x.1, x.2.2)), rest) := by
+  have h := parseDeclListA_triples (triplesOfNsA d) fuel rest (good_triplesOfNsA d hw ha) hr hs
+    (by simpa [triplesOfNsA, nsCount, NamespaceA.strip] using (by simp [nsCount, NamespaceA.strip] at hf; omega))
+  rwa [printTriples_nsA] at h
+
+/-- forgetting the annotations of the parsed body gives exactly the declarations of the un-annotated theorem (`declsOfNs`), so
+`convertDecls` (to_json_schema.rs) turns them into `normNs d.strip` as in `fragment_roundtrip` -/
+theorem annotated_namespace_strip (d : NamespaceA) : (triplesOfNsA d).map (·.2.2) = declsOfNs d.strip := by
+  simp [triplesOfNsA, declsOfNs, pairsOfNs, pairsOfCommons, pairsOfEntities, pairsOfActions, NamespaceA.strip, Function.comp_def]
+
+/-- `@doc("types") type Ctx = {…};  @a @b("x") entity Color enum [..];  action "view doc" …;` followed by `}` -/
+def demoNsA : NamespaceA :=
+  { commons := [([("doc", some "types")], "Ctx", .record (.cons "ip" false (.ext "ipaddr") .nil))],
+    entities := [([("a", none), ("b", some "x")], "Color", .enum ["red", "dark blue"])],
+    actions := [([], "view doc", demoAction)] }
+
+example : ∃ ds, parseDeclListA 10 (printNsA demoNsA ++ [.rb]) = some (ds, [.rb]) ∧
+    ds.map (·.1) = [[("doc", some "types")], [("a", some ""), ("b", some "x")], []] := by
+  refine ⟨_, annotated_namespace_roundtrip demoNsA ?_ ?_ 10 [.rb] (by decide) (by decide) (by decide), by decide +kernel⟩
+  · refine ⟨?_, ?_, ?_⟩
+    · intro x hx
+      simp only [demoNsA, NamespaceA.strip, List.map_cons, List.map_nil, List.mem_cons, List.not_mem_nil, or_false] at hx
+      subst hx
+      refine ⟨by decide, by decide, by decide, ?_⟩
+      simp [WFJ, WFAJ]; decide
+    · intro x hx
+      simp only [demoNsA, NamespaceA.strip, List.map_cons, List.map_nil, List.mem_cons, List.not_mem_nil, or_false] at hx
+      subst hx
+      exact ⟨by decide, by decide, by simp⟩
+    · intro x hx
+      simp only [demoNsA, NamespaceA.strip, List.map_cons, List.map_nil, List.mem_cons, List.not_mem_nil, or_false] at hx
+      subst hx
+      exact demoAction_wf.1
+  · refine ⟨?_, ?_, ?_⟩ <;> intro x hx <;>
+      simp only [demoNsA, List.mem_cons, List.not_mem_nil, or_false] at hx <;> subst hx
+    · exact ⟨by intro y hy; simp at hy; subst hy; decide +kernel, by simp [KeysSorted]⟩
+    · exact ⟨by intro y hy; simp at hy; rcases hy with rfl | rfl <;> decide +kernel, by simp [KeysSorted]; decide +kernel⟩
+    · exact ⟨by intro y hy; simp at hy, by simp [KeysSorted]⟩
+
+/-- the statement still open for annotations: a whole ANNOTATED fragment — annotations on `namespace` blocks (the `Annotation*`
+prefix of `Namedspace`, refused on the empty namespace by the JSON deserialiser) and on record ATTRIBUTES (`TypeOfAttribute`,
+inside type expressions) in addition to the declaration annotations proved above — printed and re-read is the normal form of
+`fragment_roundtrip` with `normAnns` applied to every annotation map.  `annotated_namespace_roundtrip` is the declaration-list part. -/
+def AnnotatedFragmentRoundtrip : Prop :=
+  ∀ (FragmentA : Type) (strip : FragmentA → FragmentJ) (normA : FragmentA → FragmentA)
+    (printA : FragmentA → List Tok) (parseA : List Tok → Option FragmentA),
+    -- for the (unwritten) annotated printer / parser pair that agree with the un-annotated ones on stripped fragments
+    (∀ f, (parseA (printA f)).map strip = parseFragment (printFragmentJ (strip f))) →
+    ∀ f, WFFrag (strip f) → SortedFrag (strip f) → parseA (printA f) = some (normA f)
 
 end Cedar.C09
